@@ -1707,9 +1707,10 @@ class TcpClientStack(ClientStreamStack, IpStack):
         if not received:  # nothing changed
             return False
 
-        packet = self.parserize(self.rxbs[:])
-
-        if packet is not None:  # queue packet
+        while self.rxbs:  # queue every complete packet now in the buffer
+            packet = self.parserize(self.rxbs[:])
+            if packet is None:  # not enough for another packet
+                break
             console.profuse("{0}: received from {1}\n    0x{2}\n".format(self.name,
                                                                      self.remote.ha,
                             hexlify(self.rxbs[:packet.size]).decode('ascii')))
